@@ -189,6 +189,20 @@ class NP(object):
         a.fill(0)
         return a
 
+    def delete(self, arr, obj, axis=None):
+        self._u('delete')
+        if not isinstance(arr, _np.ndarray):
+            raise pysym.CheckerError('np.delete on %s needs a contract' % type(arr).__name__)
+        idx = [pysym._toint(i) for i in obj] if isinstance(obj, (list, tuple)) else pysym._toint(obj)
+        return _np.delete(arr, idx, axis=axis)
+
+    def insert(self, arr, obj, values, axis=None):
+        self._u('insert')
+        if not isinstance(arr, _np.ndarray):
+            raise pysym.CheckerError('np.insert on %s needs a contract' % type(arr).__name__)
+        a = arr.astype(object)
+        return _np.insert(a, pysym._toint(obj), _unwrap0(values), axis=axis)
+
     def zeros_like(self, x):
         a = _np.empty(x.shape, dtype=object)
         a.fill(0)
